@@ -77,6 +77,10 @@ func init() {
 			full := rwFull()
 			for i := 0; i < sampled; i++ {
 				n := g.Intn(9)
+				if g.Chance(1, 25) {
+					// long results (a name many lists have an opinion about): dozens of rewrites with a few exceptions anywhere
+					n = Pick(g, []int{12, 13, 14, 16, 20, 24, 33, 40, 64})
+				}
 				var seq []string
 				for j := 0; j < n; j++ {
 					seq = append(seq, Pick(g, full))
